@@ -4,6 +4,7 @@ package c16
 
 import (
 	"fmt"
+	"math"
 	"sort"
 	"strings"
 	"sync"
@@ -28,7 +29,31 @@ var fullKeysThorough = append(append([]string{}, fullKeysQuick...), "kabc", "f1"
 var subKeysQuick = []string{"i1", "d1", "big64a", "big64b"}
 var subKeysThorough = []string{"i1", "d1", "big64a", "big64b", "r12a", "sabc_a"}
 
+// keys of the representation alphabet (mode rep), explored to the fixpoint of the reachable contents: classes of
+// slip's eql with several representations of one non-integral value (held by reference: ratio, long-float; held by
+// value: double, single, complex), a ratio no float equals next to the nearest double, and an integral value held by
+// a bignum, a double, a ratio. No key of this alphabet is unhashable.
+var repKeysQuick = []string{"r12a", "d05", "f05", "l05", "r13", "d13", "big2", "d2"}
+var repKeysThorough = []string{"r12a", "d05", "f05", "l05", "c05", "rm74", "dm175", "r13", "d13", "big2", "d2", "r42", "d0", "dm0"}
+
 var tableVals = []string{"a", "nil"}
+
+func repKeys(tier string) []string {
+	if tier == engine.Thorough {
+		return repKeysThorough
+	}
+	return repKeysQuick
+}
+
+func modeKeys(mode, tier string) []string {
+	switch mode {
+	case "sub":
+		return subKeys(tier)
+	case "rep":
+		return repKeys(tier)
+	}
+	return fullKeys(tier)
+}
 
 func fullKeys(tier string) []string {
 	if tier == engine.Thorough {
@@ -65,7 +90,7 @@ func opsFor(keys []string) (ops []string) {
 }
 
 func newOps() (ops []string) {
-	for _, mode := range []string{"full", "sub"} {
+	for _, mode := range []string{"full", "sub", "rep"} {
 		for _, t := range tableTests {
 			ops = append(ops, "new:"+mode+":"+t)
 		}
@@ -410,7 +435,7 @@ func describeOp(op string) string {
 	parts := strings.Split(op, ":")
 	switch parts[0] {
 	case "set":
-		v := "'a"
+		v := "'" + parts[2]
 		if parts[2] == "nil" {
 			v = "nil"
 		}
@@ -430,17 +455,96 @@ var (
 	keyOnce  sync.Once
 	keyObjs  map[string]slip.Object
 	keyFine  map[string]string
-	keyEquiv map[string]*equiv
 	keyErr   string
+	eqvMu    sync.Mutex
+	predMemo = map[string]bool{}
+	eqvMemo  = map[string]map[string]*equiv{}
 )
 
-func allTableKeys() []string { return fullKeysThorough }
+// keyPred: slip's own predicate on two key objects (in either order); a predicate that does not answer counts as nil.
+func keyPred(test, a, b string) bool {
+	id := test + "|" + a + "|" + b
+	if v, has := predMemo[id]; has {
+		return v
+	}
+	sys := &realRel{objs: keyObjs}
+	v := sys.pred(test, a, b).v == 1 || sys.pred(test, b, a).v == 1
+	predMemo[id] = v
+	return v
+}
+
+// equivsOver measures, for each table test, the classes of slip's own predicate on the key objects `names` (every key
+// that can be stored or looked up in the case at hand): union-find over "the predicate says t".
+func equivsOver(names []string) map[string]*equiv {
+	eqvMu.Lock()
+	defer eqvMu.Unlock()
+	id := strings.Join(names, ",")
+	if m, has := eqvMemo[id]; has {
+		return m
+	}
+	m := map[string]*equiv{}
+	for _, t := range tableTests {
+		parent := map[string]string{}
+		var find func(string) string
+		find = func(a string) string {
+			if parent[a] == "" || parent[a] == a {
+				return a
+			}
+			r := find(parent[a])
+			parent[a] = r
+			return r
+		}
+		for i, a := range names {
+			for _, b := range names[i+1:] {
+				if keyPred(t, a, b) {
+					parent[find(b)] = find(a)
+				}
+			}
+		}
+		eq := &equiv{name: "slip's " + t, class: map[string]int{}}
+		ids := map[string]int{}
+		for _, a := range names {
+			r := find(a)
+			if _, has := ids[r]; !has {
+				ids[r] = len(ids)
+			}
+			eq.class[a] = ids[r]
+		}
+		m[t] = eq
+	}
+	eqvMemo[id] = m
+	return m
+}
+
+// every key object of any table family: the BFS alphabets of both tiers, the representation alphabets (mode rep) and
+// the alphabet and bystanders of the pair family
+var allKeys = func() (ks []string) {
+	seen := map[string]bool{}
+	for _, set := range [][]string{fullKeysThorough, repKeysThorough, repKeysQuick, pairKeys, pairBystanders} {
+		for _, k := range set {
+			if !seen[k] {
+				seen[k] = true
+				ks = append(ks, k)
+			}
+		}
+	}
+	return
+}()
+
+var keyVarOf = func() map[string]string {
+	m := map[string]string{}
+	for i, n := range allKeys {
+		m[n] = fmt.Sprintf("k%d_", i)
+	}
+	return m
+}()
+
+func allTableKeys() []string { return allKeys }
 
 func keySetup() {
 	keyOnce.Do(func() {
 		keyObjs = map[string]slip.Object{}
 		keyFine = map[string]string{}
-		keyEquiv = map[string]*equiv{}
 		names := allTableKeys()
 		for _, n := range names {
 			e := elemByName[n]
@@ -456,46 +560,13 @@ func keySetup() {
 			keyObjs[n] = o
 			keyFine[n] = fineKind(o)
 		}
-		sys := &realRel{objs: keyObjs}
-		for _, t := range tableTests {
-			// union-find over "slip's own predicate says t" (in either order); a predicate that does not answer counts as nil
-			parent := map[string]string{}
-			var find func(string) string
-			find = func(a string) string {
-				if parent[a] == "" || parent[a] == a {
-					return a
-				}
-				r := find(parent[a])
-				parent[a] = r
-				return r
-			}
-			for i, a := range names {
-				for _, b := range names[i+1:] {
-					if sys.pred(t, a, b).v == 1 || sys.pred(t, b, a).v == 1 {
-						parent[find(b)] = find(a)
-					}
-				}
-			}
-			eq := &equiv{name: "slip's " + t, class: map[string]int{}}
-			ids := map[string]int{}
-			for _, a := range names {
-				r := find(a)
-				if _, has := ids[r]; !has {
-					ids[r] = len(ids)
-				}
-				eq.class[a] = ids[r]
-			}
-			keyEquiv[t] = eq
-		}
 	})
 }
 
 // keyVar: slip variable names are case-insensitive, element names are not.
 func keyVar(name string) string {
-	for i, n := range allTableKeys() {
-		if n == name {
-			return fmt.Sprintf("k%d_", i)
-		}
+	if v, has := keyVarOf[name]; has {
+		return v
 	}
 	return "k_unknown_"
 }
@@ -506,6 +577,21 @@ func goSame(a, b slip.Object) (same bool) {
 			same = false
 		}
 	}()
+	switch fa := a.(type) {
+	case slip.DoubleFloat:
+		if fb, ok := b.(slip.DoubleFloat); ok {
+			if math.IsNaN(float64(fa)) && math.IsNaN(float64(fb)) {
+				return true // a NaN key is recognised as the NaN of the alphabet (Go's == never holds on it)
+			}
+			return math.Float64bits(float64(fa)) == math.Float64bits(float64(fb)) // 0.0 and -0.0 are told apart
+		}
+		return false
+	case slip.SingleFloat:
+		if fb, ok := b.(slip.SingleFloat); ok {
+			return math.Float32bits(float32(fa)) == math.Float32bits(float32(fb))
+		}
+		return false
+	}
 	return a == b
 }
 
@@ -515,7 +601,16 @@ func keyName(o slip.Object) string {
 			return n
 		}
 	}
-	return "?" + lisp.Show(o)
+	// a key object the table made up itself (say, the double of a single-float it was given): it takes part in the
+	// classes like any other key, measured with slip's own predicate
+	name := "?" + lisp.Show(o)
+	eqvMu.Lock()
+	if _, has := keyObjs[name]; !has {
+		keyObjs[name] = o
+		keyFine[name] = fineKind(o)
+	}
+	eqvMu.Unlock()
+	return name
 }
 
 func valName(o slip.Object) string {
@@ -529,8 +624,8 @@ type realTable struct {
 func newRealTable(test string) (*realTable, *lisp.Err) {
 	keySetup()
 	t := &realTable{scope: slip.NewScope()}
-	for n, o := range keyObjs {
-		t.scope.Let(slip.Symbol(keyVar(n)), o)
+	for n, v := range keyVarOf {
+		t.scope.Let(slip.Symbol(v), keyObjs[n])
 	}
 	h, err := lisp.EvalIn(t.scope, "(make-hash-table :test '"+test+")")
 	if err != nil {
@@ -545,7 +640,7 @@ func (t *realTable) apply(op string) (string, tri) {
 	var src string
 	switch parts[0] {
 	case "set":
-		v := "'a"
+		v := "'" + parts[2]
 		if parts[2] == "nil" {
 			v = "nil"
 		}
@@ -642,6 +737,29 @@ func observeStep(impl tableImpl, test, op string, probeKeys []string) *tableObs 
 	return o
 }
 
+// stepEquivs: the classes for one observed step, measured on the keys of the alphabet at hand AND on every key object
+// the table is seen to hold (a table may keep another object than the one it was given: a number with a fixnum value
+// is kept as that fixnum).
+func stepEquivs(o *tableObs, keys []string) map[string]*equiv {
+	seen := map[string]bool{}
+	var names []string
+	add := func(k string) {
+		if _, isKey := keyObjs[k]; isKey && !seen[k] {
+			seen[k] = true
+			names = append(names, k)
+		}
+	}
+	for _, k := range keys {
+		add(k)
+	}
+	for _, es := range [][]entry{o.pre, o.post, o.visited} {
+		for _, e := range es {
+			add(e.key)
+		}
+	}
+	return equivsOver(names)
+}
+
 func acceptFor(test string, eqv map[string]*equiv) []*equiv {
 	// make-hash-table documents ":test ... Ignored and eql always used": the primary model is slip's own eql;
 	// a table that honours the requested test is accepted as well (S2).
@@ -669,10 +787,10 @@ func execBFS(hist []string) (res engine.Result) {
 	if len(first) == 4 && first[3] == "T" {
 		tier = engine.Thorough
 	}
-	keys := fullKeys(tier)
-	if mode == "sub" {
-		keys = subKeys(tier)
+	if mode != "full" && mode != "sub" && mode != "rep" {
+		return
 	}
+	keys := modeKeys(mode, tier)
 	last := hist[len(hist)-1]
 	if last == "stop" || strings.HasPrefix(last, "new:") && 1 < len(hist) {
 		return
@@ -707,13 +825,20 @@ func execBFS(hist []string) (res engine.Result) {
 			}
 		}
 		o := observeStep(tab, test, last, keys)
-		v := checkStep(o, acceptFor(test, keyEquiv), func(k string) string {
+		v := checkStep(o, acceptFor(test, stepEquivs(o, keys)), func(k string) string {
 			if f, has := keyFine[k]; has {
 				return f
 			}
 			return "unknown"
 		})
 		v.into(&res)
+		if mode == "rep" {
+			for _, h := range v.hits {
+				if strings.HasSuffix(h, "-via-equivalent-key") {
+					res.Hit("rep-mode-" + h)
+				}
+			}
+		}
 		if o.opBad.v == -1 {
 			return // no successor state
 		}
